@@ -44,8 +44,10 @@ Definition wf_snap (a : snap) : Prop :=
   NoDup (reg_keys a)
   (* a class whose handler writes nothing is published under an XSD builtin name *)
   /\ (forall c, In c (a_classes a) -> c_kind c = KPlain -> builtin (c_ns c, c_tn c))
-  (* add_class: deps[cls].add(extends) *)
-  /\ (forall c b, In c (a_classes a) -> c_base c = Some b -> In b (reg_keys a))
+  (* add_class: the parent class, or the variant of it that got there first
+     (has_class), is registered *)
+  /\ (forall c b bc, In c (a_classes a) -> c_base c = Some b -> find_cls (a_classes a) b = Some bc ->
+        type_reg a (c_ns bc, c_tn bc))
   (* add_method: request / response classes are registered (has_class) and their
      element lives in the target namespace or is the element of a registered class *)
   /\ (forall x, In x (meth_io a) ->
@@ -102,7 +104,7 @@ Proof.
   - apply nodupz_ok; auto.
   - apply builtinb_ok. specialize (H2 c H). unfold is_complex in H2. rewrite H0 in H2. auto.
   - apply builtinb_ok. specialize (H2 c H). unfold is_complex in H2. rewrite H0 in H2. auto.
-  - intros c b Hc Hb. specialize (H3 c Hc). rewrite Hb in H3. apply memz_In. auto.
+  - intros c b bc Hc Hb Fb. specialize (H3 c Hc). rewrite Hb, Fb in H3. apply type_regb_ok. auto.
   - apply type_regb_ok. specialize (H4 x H). apply andb_true_iff in H4 as [A _]. auto.
   - specialize (H4 x H). apply andb_true_iff in H4 as [_ B]. apply orb_true_iff in B as [B|B].
     + left. apply text_eqb_eq. auto.
@@ -299,11 +301,13 @@ Proof. intros H. unfold write, upd. apply keys_oset. apply keys_oset. auto. Qed.
 Section AddInv.
   Variable tbl : list cls.
   Variable K : list Z.                      (* the classes registered in interface.deps *)
-  Hypothesis base_reg : forall c b, In c tbl -> c_base c = Some b -> In b K.
 
-  (** a reference that was written names a class that is, or will be, handed to add() *)
+  (** a reference that was written names a builtin or a class that is, or will be,
+      handed to add() *)
   Definition ref_ok (tg : list Z) (q : qn) : Prop :=
-    exists id c, find_cls tbl id = Some c /\ (c_ns c, c_tn c) = q /\ (In id tg \/ In id K).
+    builtin q \/ exists id c, find_cls tbl id = Some c /\ (c_ns c, c_tn c) = q /\ (In id tg \/ In id K).
+  Hypothesis base_reg : forall c b bc, In c tbl -> c_base c = Some b -> find_cls tbl b = Some bc ->
+    ref_ok [] (c_ns bc, c_tn bc).
   Definition td_ok (tg : list Z) (td : tdef) : Prop :=
     (forall q, t_base td = Some q -> ref_ok tg q) /\ (forall m, In m (t_members td) -> ref_ok tg (snd m)).
 
@@ -317,7 +321,7 @@ Section AddInv.
   }.
 
   Lemma ref_ok_mono tg tg' q : incl tg tg' -> ref_ok tg q -> ref_ok tg' q.
-  Proof. intros I (id & c & A & B & [C|C]); exists id, c; auto. Qed.
+  Proof. intros I [B|(id & c & A & B & [C|C])]; [left; auto| |]; right; exists id, c; auto. Qed.
 
   Lemma td_ok_mono tg tg' td : incl tg tg' -> td_ok tg td -> td_ok tg' td.
   Proof. intros I [A B]. split; intros; eapply ref_ok_mono; eauto. Qed.
@@ -343,7 +347,7 @@ Section AddInv.
       destruct (members add tbl st2 fs) as [[st3 ms3]|] eqn:M; simpl in H; try discriminate.
       destruct (IH st2 st3 ms3 P M I1) as (I3 & T3 & K3 & R3).
       simpl in T3, K3. inversion H; subst; clear H. split; [auto|]. split; [eapply incl_tran; eauto|]. split; [auto|].
-      intros m [<-|Hm]; auto. simpl. exists v, vc. split; [auto|]. split; [auto|]. left. apply T3. auto.
+      intros m [<-|Hm]; auto. simpl. right. exists v, vc. split; [auto|]. split; [auto|]. left. apply T3. auto.
   Qed.
 
   Lemma find_cls_fun id c c' : find_cls tbl id = Some c -> find_cls tbl id = Some c' -> c = c'.
@@ -372,7 +376,7 @@ Section AddInv.
     { intros q -> tg. unfold bres in BR. destruct (c_base c) as [b|] eqn:B; try discriminate.
       destruct (find_cls tbl b) as [bc|] eqn:FB; try discriminate.
       destruct (text_eqb (c_tn bc) (c_tn c) && text_eqb (c_ns bc) (c_ns c)); try discriminate.
-      inversion BR; subst. exists b, bc. repeat split; auto. right. eapply base_reg; eauto. }
+      inversion BR; subst. eapply ref_ok_mono; [|eapply base_reg; eauto]. intros x []. }
     set (st0 := {| tags := tags st; nss := nss st;
                    trace := trace st ++ match bq with Some q => [fst q] | None => [] end |}) in *.
     destruct (members add tbl st0 (c_fields c)) as [[stm ms]|] eqn:M; simpl in H; try discriminate.
@@ -390,7 +394,7 @@ Section AddInv.
         * inversion H; subst. split; simpl; auto.
         * eapply inv_td; eauto.
       + intros e H. apply write_stored_e in H as [->|H].
-        * simpl. exists id, c. repeat split; auto.
+        * simpl. right. exists id, c. repeat split; auto.
         * eapply inv_el; eauto.
       + intros id' c' Hid NP F' KC'.
         destruct (Z.eq_dec id' id) as [->|NE].
@@ -684,7 +688,11 @@ Proof.
   (* the invariant at the end of the add loop *)
   assert (Inv tbl K (fun _ => False) (tags st_init) (nss st_init)) as I0.
   { constructor; simpl; try tauto. }
-  destruct (add_all_inv tbl K BASE _ _ _ _ ADD I0) as (I & _ & COV & KEYS).
+  assert (forall q, type_reg a q -> ref_ok tbl K [] q) as TR.
+  { intros q [B|(id & c & F & KC & Hid & E)]; [left; auto|]. right. exists id, c. auto. }
+  destruct (add_all_inv tbl K) with (st := st_init) (st' := st) (P := fun _ : Z => False) (ids := concat tiers)
+    as (I & _ & COV & KEYS); auto.
+  { intros c b bc Hc Hb Fb. apply TR. eapply BASE; eauto. }
   (* every registered class went through add() *)
   assert (incl K (tags st)) as KT.
   { destruct (toposort2_covers _ _ _ _ PERM ND TOPO) as [E|C].
@@ -692,7 +700,7 @@ Proof.
     - eapply incl_tran; eauto. }
   (* a written reference resolves in the table *)
   assert (forall q, ref_ok tbl K (tags st) q -> builtin q \/ In (snd q) (types_at (nss st) (fst q))) as REF.
-  { intros q (id & c & F & <- & TG).
+  { intros q [B|(id & c & F & <- & TG)]; [left; auto|].
     assert (In id (tags st)) as Hid by (destruct TG; auto).
     destruct (c_kind c) eqn:KC.
     - right. simpl. apply (inv_def _ _ _ _ _ I id c); auto.
